@@ -870,6 +870,26 @@ pub enum Term {
     Var(Cell<VarReg>, VarPtr),
 }
 
+/// Drops a term without recursing on its nesting depth: the children are moved onto an
+/// explicit work-list first, so the compiler-generated (recursive) drop glue only ever sees
+/// terms whose children are already gone. Used where a freshly read term of arbitrary depth
+/// dies (a 10^6-deep term otherwise overflows the native stack in `drop_in_place::<Term>`).
+pub(crate) fn drop_term_iteratively(term: Term) {
+    let mut stack = vec![term];
+
+    while let Some(term) = stack.pop() {
+        match term {
+            Term::Clause(_, _, subterms) => stack.extend(subterms),
+            Term::Cons(_, head, tail) => {
+                stack.push(*head);
+                stack.push(*tail);
+            }
+            Term::PartialString(_, _, tail) => stack.push(*tail),
+            _ => {}
+        }
+    }
+}
+
 impl Term {
     pub fn first_arg(&self) -> Option<&Term> {
         match self {
